@@ -39,7 +39,7 @@ def asmfs_request(root, tree, compress, main='main.asm', include_dirs=()):
     toks.append(str(len(files)))
     for rel, lines in files:
         toks.append(common.hexs(os.path.join(root, rel)))
-        toks.append(common.hexs('\n'.join(lines) + '\n'))
+        toks.append(common.hexs(''.join(lines) if rel.endswith('.bin') else '\n'.join(lines) + '\n') or '-')
     toks.append(str(len(dirs)))
     toks += [common.hexs(d) for d in dirs]
     return ' '.join(toks)
@@ -139,7 +139,7 @@ def make_case(asm, idx, tier):
         return None
     flat, fault = got
     as_string = depth == 0 and rnd.random() < 0.5
-    tree = faultplant.build_tree(rnd, flat, depth, fault_depth, unicode_noise=(rnd.random() < 0.04))
+    tree = faultplant.build_tree(rnd, flat, depth, fault_depth, unicode_noise=(rnd.random() < 0.04), blobs=not as_string)
     return dict(idx=idx, fault=fault, depth=depth, fault_depth=tree.depth_of.get('fault', 0), as_string=as_string,
                 files={k: v for k, v in tree.files.items()}, where=tree.where, cli=(rnd.random() < 0.1))
 
